@@ -37,16 +37,35 @@ TIERS = {
 }
 
 
-def collect_programs(tier, family, res, rng):
+FAULT_TIERS = {
+    'quick': {'bfs': [('fault-staged-len2', cfg(2, 4, family='fault'), 14000)],
+              'random': {'count': 2500, 'depths': (3, 4, 5)}},
+    'thorough': {'bfs': [('fault-staged-len2', cfg(2, 4, family='fault'), None),
+                         ('fault-staged-len3', cfg(3, 4, family='fault'), 80000)],
+                 'random': {'count': 40000, 'depths': (3, 4, 5, 6)}},
+}
+SORT_TIERS = {
+    'quick': {'bfs': [('sortgroup-d2', cfg(3, 2, family='sortgroup'), None)],
+              'random': {'count': 1500, 'depths': (2, 3, 4), 'payload': 'd', 'top': 'sortgroup'}},
+    'thorough': {'bfs': [('sortgroup-d2', cfg(3, 2, family='sortgroup'), None),
+                         ('sortgroup-d3-reduced', cfg(3, 3, family='sortgroup', rich=1), 60000)],
+                 'random': {'count': 30000, 'depths': (2, 3, 4, 5), 'payload': 'd', 'top': 'sortgroup'}},
+}
+FAMILY = {'C14': ('fault', FAULT_TIERS), 'C18': ('sortgroup', SORT_TIERS)}
+
+
+def collect_programs(tier, family, res, rng, tiers=None):
     """TLC enumerates programs (BFS, exhaustive inside the constants); a seeded
     generator adds deep random ones; returns the list to execute."""
     chosen = {}
-    plan = TIERS[tier]
+    plan = (tiers or TIERS)[tier]
     info = []
     for name, c, budget in plan['bfs']:
         c = c.replace('"core"', f'"{family}"')
         recs, st = pipeline.enumerate_programs(c)
         res.add_tlc(st)
+        if family == 'sortgroup':      # only programs with sort / groupby on top matter
+            recs = [r for r in recs if r['prog']['op'] in ('sort', 'group')]
         flagged = [r for r in recs if any(v[0] == 'viol' for v in r['mv'].values())]
         rest = [r for r in recs if not any(v[0] == 'viol' for v in r['mv'].values())]
         if budget is not None and len(rest) > budget:
@@ -58,7 +77,8 @@ def collect_programs(tier, family, res, rng):
                      or len(recs) - len(flagged) <= budget, 'tlc': st})
     rp = plan['random']
     from . import randprog
-    deep = randprog.programs(common.seed(), rp['count'], rp['depths'], family=family)
+    deep = randprog.programs(common.seed(), rp['count'], rp['depths'], family=family,
+                             payload=rp.get('payload', 'i'), top=rp.get('top'))
     fresh = 0
     for p in deep:
         key = json.dumps(p, sort_keys=True)
@@ -74,8 +94,9 @@ def collect_programs(tier, family, res, rng):
 def run(prop, tier, family='core', judge=None):
     res = Result(prop, tier)
     rng = random.Random(common.seed())
+    family, tiers = FAMILY.get(prop, (family, None))
     try:
-        recs = collect_programs(tier, family, res, rng)
+        recs = collect_programs(tier, family, res, rng, tiers)
         obs = pipeline.observe_all([r['prog'] for r in recs])
         records = [{'id': i + 1, 'prog': r['prog'], 'obs': o}
                    for i, (r, o) in enumerate(zip(recs, obs))]
